@@ -286,7 +286,10 @@ def same_struct(ck, name, ci, got, want, kind, wit):
 
 def handled_monitor(ck, g):
     from pypose.lietensor.lietensor import HANDLED_FUNCTIONS
-    names = list(dict.fromkeys(HANDLED_FUNCTIONS))
+    # the functions the library documents as handled (a fixed list: a name dropped from the library's own
+    # list must still be exercised), plus anything the library lists beyond it
+    tab0, skipped0 = handled_table(3)
+    names = list(dict.fromkeys(list(tab0) + list(skipped0) + list(HANDLED_FUNCTIONS)))
     covered, skipped_names = 0, {}
     for kind in lie.ALGS + lie.GRPS:
         d = (L.ALG.get(kind) or L.GRP.get(kind))
